@@ -23,7 +23,7 @@ HARNESSES = [{'id': 'c07_binary',
   'domain': 'leaves in [-LEAFMAX, LEAFMAX] plus INT_MIN, INT_MAX',
   'oracle': 'C++ semantics; /0 and %0 must give RT_error; no trap (CBMC division checks on the real code)',
   'bounds': {'quick': {'defs': {'OPSET': 1, 'LEAFMAX': 64}, 'unwind': 22, 'cap': 300},
-             'thorough': {'defs': {'OPSET': 1, 'LEAFMAX': 4096}, 'unwind': 22, 'cap': 3000}}},
+             'thorough': {'defs': {'OPSET': 1, 'LEAFMAX': 256}, 'unwind': 22, 'cap': 3000}}},
  {'id': 'c07_unary',
   'property': 'C07',
   'src': 'c07_evaluate.cxx',
@@ -85,3 +85,28 @@ HARNESSES += (
     [_lit('chr', 4, 4, 4, p, 'get_quoted_char / scan_escape_sequence / hex_val on 24 character literals: plain, simple escapes, '
           'octal \\0 \\7 \\17 \\101 \\377, hex \\x41 \\x7f \\xA \\x0, \\e, \\18') for p in range(4)]
 )
+
+# ---- the real generated parser: precedence / associativity (t07) ------------------------------------------------------
+_PARSE_TUS = ['src/cppparser/cppPreprocessor.cxx', 'src/cppparser/cppExpression.cxx', 'src/cppparser/cppDeclaration.cxx',
+              'src/cppparser/cppToken.cxx', 'src/cppparser/cppFile.cxx', 'src/cppparser/cppAttributeList.cxx', 'src/dtoolutil/filename.cxx']
+_PARSE_CUT = ['_ZN15CPPPreprocessor14get_next_tokenEv',
+              '_ZNK15CPPPreprocessor5errorERKNSt7__cxx1112basic_stringIcSt11char_traitsIcESaIcEEERK10cppyyltype',
+              '_ZNK15CPPPreprocessor7warningERKNSt7__cxx1112basic_stringIcSt11char_traitsIcESaIcEEERK10cppyyltype']
+
+HARNESSES += [
+    dict(id='c07_parse_x', property='C07', src='c07_parse.cxx', entry='harness_c07_parse_pair',
+         tus=_PARSE_TUS, cut=_PARSE_CUT, skip_ctors=['cppPreprocessor.cxx'],
+         desc='experiment', domain='x', oracle='x',
+         cbmc_flags=['--no-pointer-check'],
+         bounds=dict(quick=dict(defs=dict(I1=5, I2=3), unwind=30, cap=400))),
+    dict(id='c07_parse_y', property='C07', src='c07_parse.cxx', entry='harness_c07_parse_pair',
+         tus=_PARSE_TUS, cut=_PARSE_CUT, skip_ctors=['cppPreprocessor.cxx'],
+         desc='experiment', domain='x', oracle='x',
+         cbmc_flags=['--no-pointer-check'],
+         bounds=dict(quick=dict(defs=dict(I1=5, I2=3, YYINITDEPTH=10), unwind=30, cap=400))),
+    dict(id='c07_parse_z', property='C07', src='c07_parse.cxx', entry='harness_c07_parse_pair',
+         tus=_PARSE_TUS, cut=_PARSE_CUT, skip_ctors=['cppPreprocessor.cxx'],
+         desc='experiment', domain='x', oracle='x',
+         cbmc_flags=['--no-pointer-check'],
+         bounds=dict(quick=dict(defs=dict(I1=5, I2=3, YYINITDEPTH=10, TWO=1), unwind=30, cap=400))),
+]
